@@ -25,6 +25,16 @@ import (
 // need a few dozen.
 func budget(n int) int64 { return int64(1000*n + 10000) }
 
+// budgetOf: the Denman-Beavers / Sherif iterations converge quadratically (a
+// few dozen steps on every input they converge on at all) and each step
+// inverts two matrices, so their budget is 100 n + 1000 steps.
+func budgetOf(routine string, n int) int64 {
+	if routine == "msqrt.Run" || routine == "msqrtInv.Run" {
+		return int64(100*n + 1000)
+	}
+	return budget(n)
+}
+
 type matIn struct {
 	Class      string
 	Rows, Cols int
@@ -192,6 +202,16 @@ func directedMatrices() []matIn {
 	}
 	// the witness named in the design's pre-survey and its relatives
 	l = append(l, sq(class2x2(1, -2, -3, 1), 2, 1, -2, -3, 1), sq(class2x2(0, 1, 1, 0), 2, 0, 1, 1, 0), sq(class2x2(2, 1, 4, 2), 2, 2, 1, 4, 2))
+	// witnesses of no-return classes first seen in the sampled small-integer list
+	l = append(l,
+		sq("witness:msqrt,no-eigenvalue-on-negative-axis,n=3", 3, -2, 1, 2, 1, 2, 1, 0, 2, -2),
+		sq("witness:msqrtInv,no-eigenvalue-on-negative-axis,n=3", 3, 0, 0, 2, 2, -2, 0, 0, 1, -2),
+		sq("witness:msqrtInv,singular,n=3", 3, -2, 0, 0, 0, 2, -1, -2, 0, 0),
+		sq("witness:qr,block2x2-stall,n=4", 4, 0, 0, 0, 0, 1, 0, 1, -1, -1, 0, 0, 0, -1, 0, 0, 0),
+		sq("witness:qr,francis-stall,n=5", 5, 0, 0, 0, 0, 0, 0, 0, 0, 1, 0, 1, 0, 0, -2, 1, -2, 0, 0, 0, 0, 0, 1, -1, 0, 0),
+		sq("witness:qr,block2x2-cycle,n=4", 4, 0, 0, -1, 0, 0, 0, 0, 1, -1, 0, 0, 0, 0, 0, 0, 0),
+		sq("witness:svd,singular,n=4", 4, -1, -2, 2, -1, 2, -2, 2, -2, 0, 0, 0, 0, 0, 0, -2, 2),
+		sq("witness:svd,singular,n=5", 5, -1, 1, 1, -1, 1, 0, 1, 1, 1, 0, 0, -1, 0, -1, 1, 0, 0, 0, -1, 0, 0, 0, 0, 1, 0))
 	// non-finite entries
 	for _, bad := range []struct {
 		name string
@@ -348,9 +368,9 @@ var matRoutines = []matRoutine{
 }
 
 // bounded runs one call under the loop budget.
-func bounded(n int, f func() error) (p *fw.Panic, err error, used map[string]int64) {
+func bounded(bud int64, f func() error) (p *fw.Panic, err error, used map[string]int64) {
 	before := tickSnapshot()
-	fw.SetTickBudget(budget(n))
+	fw.SetTickBudget(bud)
 	p = fw.Call(func() { err = f() })
 	fw.SetTickBudget(0)
 	return p, err, tickDelta(before)
@@ -362,9 +382,9 @@ func bounded(n int, f func() error) (p *fw.Panic, err error, used map[string]int
 // stall just above an unreachable threshold vs. a genuine cycle).
 func qrClass(m matIn, site string, real bool, args ...interface{}) string {
 	if m.Rows == 2 {
-		return m.Class
+		return class2x2(m.at(0, 0), m.at(0, 1), m.at(1, 0), m.at(1, 1))
 	}
-	p, _, _ := bounded(m.Rows, func() error {
+	p, _, _ := bounded(budget(m.Rows), func() error {
 		_, _, err := qrAlgorithm.Run(m.build(real), append(append([]interface{}{}, args...), qrAlgorithm.Epsilon{Value: 1e-8})...)
 		return err
 	})
@@ -387,9 +407,9 @@ func runMatrix(cs *fw.Case, m matIn, real bool) {
 	report := func(routine, opts, class string, nr noReturn) {
 		cs.Cover("outcome:no-return:" + routine)
 		cs.Violation(fmt.Sprintf("C20|no-return|%s|%s|%s|%s", routine, opts, class, nr.site),
-			fmt.Sprintf("%s(%s) did not return within %d loop iterations (budget 1000*n+10000, n=%d) on %v [%s]; iterations by site: %v",
-				routine, opts, budget(n), n, m.describe()["matrix"], m.Class, nr.used),
-			map[string]any{"routine": routine, "options": opts, "input": m.describe(), "elementType": map[bool]string{false: "Float64", true: "Real64"}[real], "budget": budget(n)})
+			fmt.Sprintf("%s(%s) did not return within %d loop iterations (n=%d) on %v [%s]; iterations by site: %v",
+				routine, opts, budgetOf(routine, n), n, m.describe()["matrix"], m.Class, nr.used),
+			map[string]any{"routine": routine, "options": opts, "input": m.describe(), "elementType": map[bool]string{false: "Float64", true: "Real64"}[real], "budget": budgetOf(routine, n)})
 	}
 	for _, rt := range matRoutines {
 		if m.Rows != m.Cols && !rt.Rect {
@@ -399,7 +419,7 @@ func runMatrix(cs *fw.Case, m matIn, real bool) {
 			continue
 		}
 		a := m.build(real)
-		p, err, used := bounded(n, func() error { return rt.Call(a) })
+		p, err, used := bounded(budgetOf(rt.Name, n), func() error { return rt.Call(a) })
 		total := int64(0)
 		for site, k := range used {
 			total += k
@@ -456,13 +476,22 @@ func runMatrix(cs *fw.Case, m matIn, real bool) {
 	sF, okF := failed["svd.Run|computeU=false,computeV=false"]
 	sT, okT := failed["svd.Run|computeU=true,computeV=true"]
 	gen := strings.Split(m.Class, ",n=")[0]
+	svdClass := gen
+	if m.Rows == m.Cols && m.Rows > 0 && m.Finite {
+		// rank decides which branch (zeroRow vs. Golub-Kahan step) the iteration takes
+		if charPoly(m)[0].Sign() == 0 {
+			svdClass = "square:singular"
+		} else {
+			svdClass = "square:nonsingular"
+		}
+	}
 	switch {
 	case okF && okT:
-		report("svd.Run", "computeU/V=any", gen, sF)
+		report("svd.Run", "computeU/V=any", svdClass, sF)
 	case okF:
-		report("svd.Run", "computeU=false,computeV=false", gen, sF)
+		report("svd.Run", "computeU=false,computeV=false", svdClass, sF)
 	case okT:
-		report("svd.Run", "computeU=true,computeV=true", gen, sT)
+		report("svd.Run", "computeU=true,computeV=true", svdClass, sT)
 	}
 	for _, name := range []string{"msqrt.Run", "msqrtInv.Run"} {
 		if nr, ok := failed[name+"|default"]; ok {
